@@ -39,7 +39,7 @@ class StructureAnalysisPass(BasePass):
 
         for block in circuit:
             if isinstance(block.gate, CircuitGate):
-                subcirc = block.gate._circuit
+                subcirc = block.gate._circuit.copy()
                 # Structure depends on the gate level, call unfold_all
                 subcirc.unfold_all()
                 structure = CircuitStructure(subcirc)
